@@ -58,8 +58,13 @@ func c15Gen(t *rapid.T) interface{} {
 	ns := lib.IntN(t, 0, 2, "nsynth")
 	for i := 0; i < ns; i++ {
 		name := fmt.Sprintf("Synth-%d.txt", i)
-		if lib.IntN(t, 0, 3, "hdr") == 0 {
+		switch lib.IntN(t, 0, 5, "nameKind") {
+		case 0:
 			name = fmt.Sprintf("Synth-%d.header.txt", i)
+		case 1: // long descriptive file names (archive formats have name length limits)
+			name = fmt.Sprintf("Synth-%d-%s.txt", i, strings.Repeat("long-descriptive-name-", lib.IntN(t, 3, 8, "nameLen")))
+		case 2: // non-ASCII file name
+			name = fmt.Sprintf("Synth-%d-licença-日本.txt", i)
 		}
 		c.Synth = append(c.Synth, c15Synth{Name: name, Words: lib.Ints(t, 30, 200, 0, len(c15Vocab)-1, "words")})
 	}
@@ -109,6 +114,12 @@ func c15QueryText(q c15Query, files []licFile) (string, string) {
 		return "some preface text\n" + editWords(f.Content, q.Edits) + "\nsome trailing text\n", fmt.Sprintf("edited(%d) %s", len(q.Edits), f.Name)
 	case "variant":
 		return variant(f.Content, q.Arg), fmt.Sprintf("%s of %s", variantNames[q.Arg%len(variantNames)], f.Name)
+	case "twice":
+		heavy := append([]int{}, q.Edits...)
+		for k := 0; k < 6+q.Arg%20; k++ {
+			heavy = append(heavy, q.Arg*31+k*97)
+		}
+		return "first copy\n" + editWords(f.Content, q.Edits[:1]) + "\nsecond copy\n" + editWords(f.Content, heavy) + "\nthe end\n", fmt.Sprintf("%s twice (1 and %d edits)", f.Name, len(heavy))
 	case "inserted":
 		// filler words inserted inside the text: every word of the license is still there (token coverage stays
 		// complete) while the edit distance grows, so the confidence sinks below a high threshold
@@ -163,7 +174,12 @@ func c15Check(ci interface{}) lib.Outcome {
 			for l, r := 0, len(w)-1; l < r; l, r = l+1, r-1 {
 				w[l], w[r] = w[r], w[l]
 			}
-			decoy = append(decoy, licFile{f.Name, fmt.Sprintf("decoy %d license software ", i) + strings.Join(w, " ")})
+			if i%2 == 0 {
+				// same words in reverse order: same file name, same length, other text
+				decoy = append(decoy, licFile{f.Name, strings.Join(w, " ") + "\n"})
+			} else {
+				decoy = append(decoy, licFile{f.Name, fmt.Sprintf("decoy %d license software ", i) + strings.Join(w, " ")})
+			}
 		}
 		if darch, err := buildArchive(decoy); err == nil {
 			if d, err := lc.New(c.Thr, lc.ArchiveBytes(darch)); err == nil {
